@@ -157,6 +157,11 @@ func (c *Ctx) Finish() int {
 		}
 		return false
 	})
+	if os.Getenv("HOPVERIF_DUMP") != "" {
+		for _, o := range c.Obs {
+			fmt.Printf("OB %s %s %s @%s -- %s\n", o.Verdict, o.Rule, o.Construct, o.Site, o.Detail)
+		}
+	}
 	perRule := map[string]*[4]int{}
 	var rules []string
 	distinct := map[string]bool{}
